@@ -16,7 +16,6 @@ import (
 
 	"verif/harness/relay"
 	"verif/harness/stats"
-	"verif/harness/vnet"
 )
 
 // sessAction is one abstract step of a session history. Actions whose
@@ -54,7 +53,11 @@ func runC11(t *testing.T, c *c11Case) (out c11Outcome) {
 			out.log = append(out.log, fmt.Sprintf(f, a...))
 		}
 	}
-	bo := vnet.InBubble(t, 240*time.Second, func() {
+	// Runs in REAL time: the mailbox conns sleep in their stream re-creation
+	// back-off while holding the stream mutex that Close needs, which a
+	// synctest bubble cannot schedule (DESIGN.md 3.2a). Sessions are
+	// sleep-bound, so many of them run concurrently in one process.
+	func() {
 		start := time.Now()
 		r := relay.New(ms(c.LatMs))
 		cliKey, srvKey := ecdhKey(c.Seed, "cli"), ecdhKey(c.Seed, "srv")
@@ -493,10 +496,7 @@ func runC11(t *testing.T, c *c11Case) (out c11Outcome) {
 				}
 			}
 		}
-	})
-	if bo.Panic != "" && !bo.Deadlock && out.violation == "" {
-		out.violation = "panic: " + bo.Panic
-	}
+	}()
 	if out.reconnects > 0 {
 		out.labels = append(out.labels, "reconnected")
 	}
@@ -571,7 +571,7 @@ func TestC11Session(t *testing.T) {
 	rec := stats.New(t, "C11", unit)
 	var rc c11Case
 	if stats.ReplayCase(unit, &rc) {
-		for i := 0; i < 3; i++ {
+		for i := 0; i < 2; i++ {
 			if o := runC11(t, &rc); o.violation != "" {
 				rec.Violation(o.violation, "c11", rc)
 				t.Fatalf("%s\n%s", o.violation, strings.Join(o.log, "\n"))
@@ -582,20 +582,40 @@ func TestC11Session(t *testing.T) {
 	if stats.ReplayMode() {
 		t.Skip()
 	}
+	const batch = 40
 	rapid.Check(t, func(rt *rapid.T) {
-		c := genC11(rt)
-		rec.Current("c11", c)
-		o := runC11(t, c)
-		rec.Case(o.nontrivial, fmt.Sprintf("%+v", *c), o.labels...)
-		if o.nontrivial && rec.WantSample() {
-			rec.Sample(c)
+		// one rapid case = one batch of sessions running concurrently in
+		// real time
+		cases := make([]*c11Case, batch)
+		for i := range cases {
+			cases[i] = genC11(rt)
 		}
-		if o.violation != "" {
-			rec.Pending(o.violation, "c11", struct {
-				*c11Case
-				Log []string `json:"log"`
-			}{c, o.log})
-			rt.Fatalf("%s", o.violation)
+		outs := make([]c11Outcome, batch)
+		var wg sync.WaitGroup
+		for i := range cases {
+			i := i
+			wg.Add(1)
+			go func() {
+				defer wg.Done()
+				outs[i] = runC11(t, cases[i])
+			}()
+		}
+		wg.Wait()
+		for i, o := range outs {
+			c := cases[i]
+			rec.Case(o.nontrivial, fmt.Sprintf("%+v", *c), o.labels...)
+			if o.nontrivial && rec.WantSample() {
+				rec.Sample(c)
+			}
+		}
+		for i, o := range outs {
+			if o.violation != "" {
+				rec.Pending(o.violation, "c11", struct {
+					*c11Case
+					Log []string `json:"log"`
+				}{cases[i], o.log})
+				rt.Fatalf("%s", o.violation)
+			}
 		}
 	})
 	rec.Done()
